@@ -60,7 +60,10 @@ def run_one(v):
         r = subprocess.run(['patch', '-p1', '-s', '-d', scratch, '-i', patch], capture_output=True, text=True)
         if r.returncode != 0:
             return v, None, 'patch does not apply: ' + (r.stdout + r.stderr)[-300:]
-        r = subprocess.run([os.path.join(VERIF, 'check'), pid, '--repo', scratch], capture_output=True, text=True)
+        cmd = [os.path.join(VERIF, 'check'), pid, '--repo', scratch]
+        if '.thorough.' in os.path.basename(patch):
+            cmd += ['--tier', 'thorough']     # a variant that lives in code only other build configurations compile
+        r = subprocess.run(cmd, capture_output=True, text=True, env=dict(os.environ, VERIF_NO_SELFTEST='1'))
         lines = [l for l in r.stdout.splitlines() if l.startswith(('violation:', 'ANALYSIS-BROKEN'))]
         return v, r.returncode, '; '.join(l[:200] for l in lines[:3])
     finally:
